@@ -703,6 +703,28 @@ impl Property for C12 {
             }
         }
     }
+    /// deterministic occurrences of the known findings K1 / K2 (nalgebra's symmetric_eigen on a
+    /// diagonal real part with dual off-diagonal elements) and their repaired counterpart in the crate
+    fn fixed_cases() -> Vec<Case> {
+        let mut v = vec![];
+        for (routine, ty) in [(Routine::NaEigen, 0u8), (Routine::NaEigen, 1), (Routine::NaEigen, 3), (Routine::OwnEigen, 0), (Routine::OwnEigen, 4), (Routine::OwnEigen, 6)] {
+            for n in [1u8, 2, 4] {
+                v.push(Case {
+                    routine,
+                    ty,
+                    n,
+                    angles: vec![0.125, 0.3, 0.7, 0.45],
+                    sv: vec![0.5, 0.25, 0.75, 0.1, 0.9, 0.4],
+                    perm: vec![3, 1, 4, 1, 5, 9, 2, 6],
+                    high_kappa: true,
+                    parts: vec![1.5, -0.75, 2.0, 0.625, -1.25, 3.0, -0.5, 1.0, 0.25, -2.0, 0.875, 1.75, -3.0, 0.375, 2.5, -1.5, 0.5],
+                    rhs: vec![1.0, -2.0, 0.5],
+                    sing: 0,
+                });
+            }
+        }
+        v
+    }
     fn cases(tier: Tier) -> u64 {
         match tier {
             Tier::Quick => 40_000,
